@@ -3,6 +3,7 @@ package sm4_test
 // Generators shared by the SM4-GCM property files (public API only).
 
 import (
+	"bytes"
 	"crypto/cipher"
 	"encoding/binary"
 	"fmt"
@@ -48,6 +49,19 @@ type gcmCase struct {
 	Classes             []string
 	Wraps               bool // the 32-bit counter wraps within the message
 	Ref                 *sm4ref.Cipher
+	Regs                []byte // register pattern to plant right before the library call (nil: leave the registers as they are)
+}
+
+// verifDirty plants a pattern in the vector and mask registers (set by zz_verif_regs_hook_test.go when the driver generated the
+// helper: amd64 scratch copies only; nil elsewhere).
+var verifDirty func(pat []byte)
+
+// dirty emulates the register state of a thread that never ran the kernels (zero pattern) or that holds unrelated data: a kernel that
+// relies on a register it did not load itself gives a wrong result deterministically, not only on the first call of a thread.
+func (c *gcmCase) dirty() {
+	if verifDirty != nil && c.Regs != nil {
+		verifDirty(c.Regs)
+	}
 }
 
 func (c *gcmCase) nontrivial() bool {
@@ -113,6 +127,17 @@ func drawGCMCase(t *rapid.T) *gcmCase {
 		c.Classes = append(c.Classes, fmt.Sprintf("counter-near-2^32(wraps:%v)", c.Wraps))
 	}
 	c.Classes = append(c.Classes, "how:"+c.How, fmt.Sprintf("tag:%d", c.TagSize), nonceClass(len(c.Nonce)))
+	switch rs := gen.Pick(t, "regs", "as-is", "as-is", "zero", "ones", "random"); rs {
+	case "zero":
+		c.Regs = make([]byte, 128)
+	case "ones":
+		c.Regs = bytes.Repeat([]byte{0xff}, 128)
+	case "random":
+		c.Regs = gen.RandBytes(r, 128)
+	}
+	if verifDirty != nil {
+		c.Classes = append(c.Classes, "registers-before-call:"+map[bool]string{true: "as-is", false: "planted"}[c.Regs == nil])
+	}
 	return c
 }
 
